@@ -271,6 +271,9 @@ func execC08(c *child.Ctx, k cellCase, cj []byte) {
 	}
 	m := &ref.MSM{Type: k.Type, StationID: 1, Timestamp: 1000, SatMask: uint64(1) << 40, SigMask: uint32(1) << (32 - k.SigID), CellMask: []bool{true},
 		Sats: []ref.Sat{k.Sat}, Sigs: []ref.Sig{k.Sig}, CellsSent: -1}
+	// the values do not depend on the multiple-message flag or on zero bytes after the cells
+	m.Multiple = k.Sig.CNR%3 == 1
+	m.PadBytes = []int{0, 0, 1, 3, 4, 9}[k.Sig.CNR%6]
 	frame := ref.Frame(ref.EncodeMSM(m))
 	lvl := slog.LevelInfo
 	if k.Sig.Lock%2 == 1 {
@@ -324,6 +327,8 @@ func execC08Multi(c *child.Ctx, k multiCase) {
 		}
 	}()
 	m := &ref.MSM{Type: k.Type, StationID: 2, Timestamp: 2000, CellsSent: -1}
+	m.Multiple = len(k.Sats)%2 == 1
+	m.PadBytes = []int{0, 2, 3, 5, 12}[(len(k.Sats)+len(k.SigIDs))%5]
 	for i := range k.Sats {
 		m.SatMask |= uint64(1) << uint(63-3*i-1)
 	}
